@@ -623,7 +623,7 @@ func runC14(p *core.Prog, r *core.Report) {
 	r.Guard("C14.R6", "closure/ModulesDownTo", "ancestor closure", func() { checkClosureFn(p, r, "C14.R6", "ModuleGraph.ModulesDownTo", 0, false) })
 	r.Guard("C14.R6", "closure/StoresDownTo", "ancestor closure", func() { checkClosureFn(p, r, "C14.R6", "ModuleGraph.StoresDownTo", 0, true) })
 	r.Guard("C14.R5", "visits-all", "no silent truncation", func() {
-		checkNoSilentTruncation(p, r, "C14.R5", []loopSite{{pkgPipe, "Pipeline.executeModules", nil}, {pkgPipe, "Pipeline.BuildModuleExecutors", nil}})
+		checkNoSilentTruncation(p, r, "C14.R5", []loopSite{{pkgPipe, "Pipeline.executeModules", nil}, {pkgPipe, "Pipeline.BuildModuleExecutors", nil}, {pkgMani, "NewModuleGraph", nil}})
 	})
 	r.MinInstances("C14.R1", 2)
 	r.MinInstances("C14.R3", 4)
